@@ -266,6 +266,36 @@ def check_corner_set(cs, eps, width):
                         i = int(np.argmax(dd))
                         return fail("weights_tetra:polynomial:order_dependence",
                                     f"corners={p} vs {perms[0]} ef={efs[i]!r} der={der}: {w[i]!r} vs {first[k][i]!r}"), nev
+    # --- "all Fermi-level arrays": the same levels in descending and in shuffled order, and integer-typed arrays,
+    #     must give level by level the same weights as the ascending float array (first corner order only)
+    p = perms[0]
+    n = len(efs)
+    orders = {"descending": np.arange(n)[::-1], "shuffled": np.concatenate([np.arange(1, n, 2), np.arange(0, n, 2)[::-1]])}
+    efi = np.arange(int(np.floor(min(cs) - 1)), int(np.ceil(max(cs) + 1)) + 1)
+    if len(efi) > 64:
+        efi = efi[:: len(efi) // 32 + 1]
+    for der in ((0, 1, 2, 3) if clean else (0,)):
+        kw = dict(der=der, accurate=True) if der == 0 else dict(der=der)
+        w0 = np.array(weights_tetra(efa, p[0], p[1], p[2], p[3], **kw))
+        for oname, perm in orders.items():
+            wp = np.array(weights_tetra(efa[perm].copy(), p[0], p[1], p[2], p[3], **kw))
+            nev += n
+            dd = np.abs(wp - w0[perm])
+            dd = np.where(np.isfinite(dd), dd, np.where(np.isfinite(wp) == np.isfinite(w0[perm]), 0.0, np.inf))
+            if np.max(dd) > 1e-13 * max(1.0, float(np.max(np.abs(w0[np.isfinite(w0)]))) if np.any(np.isfinite(w0)) else 1.0):
+                i = int(np.argmax(dd))
+                return fail("weights_tetra:fermi_array_order",
+                            f"corners={p} der={der} Fermi levels in {oname} order: level {efa[perm][i]!r} gets {wp[i]!r}, "
+                            f"in the ascending array it gets {w0[perm][i]!r}"), nev
+        wf = np.array(weights_tetra(efi.astype(float), p[0], p[1], p[2], p[3], **kw))
+        wi = np.array(weights_tetra(efi, p[0], p[1], p[2], p[3], **kw))
+        nev += len(efi)
+        ok = (np.isfinite(wf) == np.isfinite(wi)) & (np.where(np.isfinite(wf) & np.isfinite(wi), np.abs(wf - wi), 0.0) <= 1e-13 * max(1.0, float(np.max(np.abs(wf[np.isfinite(wf)]))) if np.any(np.isfinite(wf)) else 1.0))
+        if not np.all(ok):
+            i = int(np.argmin(ok))
+            return fail("weights_tetra:integer_fermi_array",
+                        f"corners={p} der={der}: integer-typed Fermi array {efi.tolist()} gives {wi[i]!r} at level {int(efi[i])}, "
+                        f"the same levels as floats give {wf[i]!r}"), nev
     return legacy, nev
 
 
